@@ -131,6 +131,39 @@ def analyse_site(chk, prog, ref, min_divs):
     return fa
 
 
+# attributes that per-sample code re-derives from the current sample alone (documented as such): their new value may not depend on their old one,
+# otherwise the same call with the same arguments gives a different result each time (the gain compounds / decays)
+RECOMPUTED = {"AQUA": {"alpha": ("updateIMU", "updateMARG")}}
+
+
+def recomputed_rule(chk, prog):
+    for cname, attrs in RECOMPUTED.items():
+        cls = prog.cls(F + "%s.py::%s" % (cname.lower(), cname))
+        for attr, meths in attrs.items():
+            n = 0
+            for m in cls.methods.values():
+                hits = []
+
+                def sw(fa, a_, stmt, st, hits=hits):
+                    if a_ == attr:
+                        hits.append((stmt, st.get("s:" + attr) or ""))
+                if not any(isinstance(x, ast.Attribute) and isinstance(x.ctx, ast.Store) and x.attr == attr for x in ast.walk(m.node)) or m.name == "__init__":
+                    continue
+                Facts(m, prog, callbacks={"self_write": sw}).analyse()
+                for stmt, vn in hits:
+                    n += 1
+                    site = "%s::self.%s = %s" % (m.ref, attr, vn[:50])
+                    if ("S:" + attr) in vn:
+                        why = "the new value of self.%s is computed from its previous value (%s): repeated calls with the same arguments compound it, so the result of a call depends on how " \
+                              "many calls came before" % (attr, vn[:80])
+                        chk.record("RECOMPUTED", site, "self.%s is a function of the current sample only" % attr, verdict="VIOLATION", detail=why)
+                        chk.finding("RECOMPUTED", m.module.rel, m.qname, "self.%s fed back into its own update" % attr, why, line=stmt.lineno)
+                    else:
+                        chk.record("RECOMPUTED", site, "self.%s is re-derived from the current sample only" % attr)
+            if n < 1:
+                chk.error("RECOMPUTED: %s.%s is no longer assigned by any per-sample method (2 sites confirmed by hand)" % (cname, attr))
+
+
 def fkf_loop(chk, prog):
     """FKF._compute_all: the per-sample helper is called with raw rows; the helper must guard (checked above)."""
     f = prog.func(F + "fkf.py::FKF._compute_all")
@@ -180,6 +213,7 @@ def run(chk, prog, tier):
     unit_ret(chk, prog, only=RECURSIVE_ENTRIES)
     chk.require_count("UNIT-RET", 25)
     fkf_loop(chk, prog)
+    recomputed_rule(chk, prog)
     chk.require_count("GUARD-DIV", 20)
     canaries(chk, prog)
     return __doc__
